@@ -289,15 +289,15 @@ private def ln : VName := ⟨"n", none, some 0⟩
 private def i0 : VName := ⟨"i", none, some 0⟩
 private def i2 : VName := ⟨"i", none, some 2⟩
 private def i3 : VName := ⟨"i", none, some 3⟩
-/-- `template T(n) { signal input in[n]; signal output out; for (var i = 0; i < n; i++) { out <-- in[i] * in[i]; } }`,
+/-- `template T(n) { signal input in[n]; signal output out[n]; for (var i = 0; i < n; i++) { out[i] <-- in[i] * in[i]; } }`,
     with the loop bound `bound` -/
 private def loopCfg (bound : Expr) : Cfg := { isFunction := false, params := [ln], blocks := [
   { stmts := [.decl [lin] .signal [], .decl [lout] .signal [], .decl [i0, i2, i3] .local_ [],
               .sub {} i0 (some .local_) "=" (.num {} 0)] },
   { stmts := [.sub {} i2 (some .local_) "=" (.phi {} [i0, i3]),
               .ite (.infix {} "lt" (.var {} i2) bound)], npreds := 2, conds := [1] },
-  { stmts := [.sub {} lout (some .signal) "<--"
-                (.infix {} "mul" (.acc {} lin (.cons (.idx (.var {} i2)) .nil)) (.acc {} lin (.cons (.idx (.var {} i2)) .nil))),
+  { stmts := [.sub {} lout (some .signal) "<--" (.upd {} lout (.cons (.idx (.var {} i2)) .nil)
+                (.infix {} "mul" (.acc {} lin (.cons (.idx (.var {} i2)) .nil)) (.acc {} lin (.cons (.idx (.var {} i2)) .nil)))),
               .sub {} i3 (some .local_) "=" (.infix {} "add" (.var {} i2) (.num {} 1))], npreds := 1 },
   { stmts := [], npreds := 1 }] }
 
@@ -305,14 +305,15 @@ private def rhsClaim (c : Cfg) : List (Option Ir.Range) :=
   (stmtsOf (degLoop 30 (degInit c) c.blocks).1).filterMap
     (fun s => match s with | .sub _ v _ _ rhe => if v = lout then some rhe.ann.deg else none | _ => none)
 
-/-- the counter of a loop bounded by a parameter is constant by construction, and the element-wise hint is known to be quadratic … -/
-example : constVars (loopCfg (.var {} ln)) = [i0, i2, i3] ∧ rhsClaim (loopCfg (.var {} ln)) = [some (2, 2)] := by decide
+/-- the counter of a loop bounded by a parameter is constant by construction, and the element-wise hint is known to be at most
+    quadratic (the range of the update joins the degree 1 of the array with the degree 2 of the assigned expression) … -/
+example : constVars (loopCfg (.var {} ln)) = [i0, i2, i3] ∧ rhsClaim (loopCfg (.var {} ln)) = [some (1, 2)] := by decide
 
 /-- … while a loop bounded by a signal has no such counter (the condition that chooses between the arguments of the phi is not
     constant), and nothing is claimed about the hint -/
 example : constVars (loopCfg (.var {} lin)) = [] ∧ rhsClaim (loopCfg (.var {} lin)) = [none] := by decide
 
-/-- the hypotheses of the path theorem hold for the loop -/
+/-- the hypotheses of the path theorem hold for the loop (a signal array assigned element by element needs no earlier assignment: `PosOK`) -/
 example : wfDB (programOf (loopCfg (.var {} ln))) (loopCfg (.var {} ln)).params = true := by decide
 
 end LoopCounters
